@@ -144,8 +144,16 @@ func cmdReplay(args []string) int {
 	_, out := runOverlayTest(wd, ip, src, "TestACVReplay")
 	fmt.Println("--- re-run on the current tree ---")
 	fmt.Println(out)
-	if strings.Contains(out, "ACV-REPLAY-PANIC:") || strings.Contains(out, "ACV-REPLAY-POST: false") {
+	pos := ""
+	for _, line := range strings.Split(txt, "\n") {
+		if strings.HasPrefix(line, "position: ") {
+			pos = strings.TrimPrefix(line, "position: ")
+		}
+	}
+	if (strings.Contains(out, "ACV-REPLAY-PANIC:") && pos != "" && strings.Contains(out, "/"+pos)) || strings.Contains(out, "ACV-REPLAY-POST: false") {
+		fmt.Println("replay: REPRODUCED on the current tree")
 		return 1
 	}
+	fmt.Println("replay: not reproduced on the current tree")
 	return 0
 }
